@@ -164,19 +164,22 @@ E3_CONFIGS = {
     "B": ("target_b", True, []),
     "C": ("target_c", True, ["hooks"]),
 }
+# Configurations whose definitions and modules come out of a generator stage (truc itself) built WITHOUT
+# debug assertions and overflow checks, as cargo builds a build script and its dependencies under --release.
+E3_GEN_RELEASE = {"A": False, "B": True, "C": False}
 E3_DEFS = dict(quick=64, thorough=256)
 
 
-def gen_dir(tier, sd=None):
-    return os.path.join(WORK, "gen", "%s-%s" % (tier, seed() if sd is None else sd))
+def gen_dir(tier, sd=None, gen_release=False):
+    return os.path.join(WORK, "gen", "%s-%s%s" % (tier, seed() if sd is None else sd, "-r" if gen_release else ""))
 
 
 FUZZ_DEFS = 24
 
 
-def e3_generate(tier, exclude=(), sd=None):
-    exe = cargo_build("e2_genstage")
-    d = gen_dir(tier, sd)
+def e3_generate(tier, exclude=(), sd=None, gen_release=False):
+    exe = cargo_build("e2_genstage", release=gen_release)
+    d = gen_dir(tier, sd, gen_release)
     os.makedirs(d, exist_ok=True)
     cmd = [exe, "gen", str(FUZZ_DEFS if tier == "fuzz" else E3_DEFS[tier]), d]
     if exclude:
@@ -194,7 +197,7 @@ def e3_build(tier, config, sd=None):
     target, release, features = E3_CONFIGS[config]
     excluded = {}
     for _round in range(12):
-        d = e3_generate(tier, excluded.keys(), sd)
+        d = e3_generate(tier, excluded.keys(), sd, E3_GEN_RELEASE.get(config, False))
         try:
             exe = cargo_build("e3_gencrate", target_dir=target, release=release, features=features, extra_env={"VERIF_GEN_DIR": d})
             return exe, d, excluded
@@ -227,7 +230,7 @@ def e3_part(prop_arg, config, cases):
             r = run_engine([exe, "run", prop_arg, str(cases[tier]), out], out, "e3_gencrate(%s) run %s" % (config, prop_arg),
                            extra_env={"VERIF_SEED": str(seed() ^ salt)})
         r.setdefault("property", prop_arg)
-        r["part"] = "e3:%s:%s" % (prop_arg, {"A": "debug+hooks", "B": "release", "C": "release+hooks"}[config])
+        r["part"] = "e3:%s:%s" % (prop_arg, {"A": "debug+hooks", "B": "release (generator stage built in release too)", "C": "release+hooks"}[config])
         r["replay_engine"] = "e3-" + config
         r["replay_extra"] = {"gen_seed": seed(), "run_seed": seed() ^ salt, "tier_defs": E3_DEFS[tier], "config": config}
         if excluded:
@@ -271,7 +274,7 @@ def e3_part(prop_arg, config, cases):
 def e3_single_build(history, config, tag):
     """Builds the driver around ONE definition given by its history (self-contained replays)."""
     import re
-    gen = cargo_build("e2_genstage")
+    gen = cargo_build("e2_genstage", release=E3_GEN_RELEASE.get(config, False))
     d = os.path.join(WORK, "gen", "single-%s" % tag)
     os.makedirs(d, exist_ok=True)
     hist_file = os.path.join(d, "history_in.json")
@@ -331,7 +334,7 @@ def e3_miri_part(prop_arg, cases):
         gen = cargo_build("e2_genstage")
         d = os.path.join(WORK, "gen", "miri-%s" % seed())
         os.makedirs(d, exist_ok=True)
-        rc, out = run([gen, "gen", str(MIRI_DEFS), d], timeout=600, extra_env={"VERIF_SEED": str(seed() ^ 0x3141)})
+        rc, out = run([gen, "gen", str(MIRI_DEFS), d], timeout=600, extra_env={"VERIF_SEED": str(seed() ^ 0x3141), "VERIF_GEN_LIGHT": "1"})
         if rc != 0:
             raise Inconclusive("e2_genstage failed:\n%s" % out[-2000:])
         cases_file = os.path.join(WORK, "miri_cases_%s_%s.json" % (prop_arg, os.getpid()))
@@ -461,18 +464,23 @@ def fuzz_part(target, prop_arg, runs, max_len=256):
     return f
 
 
-def e5_part(prop_arg, n):
+def e5_part(prop_arg, n, release=False):
+    """release=True: truc (inside the probe driver) is built without debug assertions and overflow checks, as a
+    build script is under `cargo build --release`; other seed, so other cases."""
     def f(tier):
-        exe = cargo_build("e5_probes")
+        exe = cargo_build("e5_probes", release=release)
         os.makedirs(WORK, exist_ok=True)
-        out = os.path.join(WORK, "e5_%s_%s.json" % (prop_arg, os.getpid()))
-        rc, log = run([exe, "run", prop_arg, str(n[tier]), out], timeout=7200, extra_env={"VERIF_ENGINE_DIR": ENGINE})
+        out = os.path.join(WORK, "e5_%s_%s%s.json" % (prop_arg, os.getpid(), "_r" if release else ""))
+        extra = {"VERIF_ENGINE_DIR": ENGINE}
+        if release:
+            extra["VERIF_SEED"] = str(seed() + 7919)
+        rc, log = run([exe, "run", prop_arg, str(n[tier]), out], timeout=7200, extra_env=extra)
         if rc != 0:
             raise Inconclusive("e5_probes run %s failed (rc %s):\n%s" % (prop_arg, rc, log[-3000:]))
         r = json.load(open(out))
         os.remove(out)
-        r["part"] = "e5:" + prop_arg
-        r["replay_engine"] = "e5"
+        r["part"] = "e5:" + prop_arg + ("[generator built in release]" if release else "")
+        r["replay_engine"] = "e5-release" if release else "e5"
         return r
     return f
 
@@ -491,8 +499,8 @@ PROPERTIES = {
     "C09": dict(level="fault_enumeration", parts=e4_parts("C09", dict(quick=150000, thorough=2000000), dict(quick=8, thorough=11)) + [fuzz_part("vecconv", "C09", dict(quick=0, thorough=600000), 128)]),
     "C10": dict(level="exploration", parts=e4_parts("C10", dict(quick=100000, thorough=800000), dict(quick=12, thorough=40)) + [fuzz_part("vecconv", "C10", dict(quick=0, thorough=600000), 128)]),
     "C12": dict(level="exploration", parts=e1_parts("C12", dict(quick=400000, thorough=4000000)) + [fuzz_part("layout", "C12", dict(quick=0, thorough=250000), 256)]),
-    "C11": dict(level="exploration", parts=[e5_part("C11", dict(quick=1500, thorough=10000))]),
-    "C13": dict(level="exploration", parts=e1_parts("C13", dict(quick=60000, thorough=800000)) + [e5_part("C13", dict(quick=120, thorough=1500))] + [fuzz_part("layout", "C13", dict(quick=0, thorough=20000), 256)]),
+    "C11": dict(level="exploration", parts=[e5_part("C11", dict(quick=1500, thorough=10000)), e5_part("C11", dict(quick=500, thorough=3000), release=True)]),
+    "C13": dict(level="exploration", parts=e1_parts("C13", dict(quick=60000, thorough=800000)) + [e5_part("C13", dict(quick=120, thorough=1500)), e5_part("C13", dict(quick=60, thorough=500), release=True)] + [fuzz_part("layout", "C13", dict(quick=0, thorough=20000), 256)]),
     "C14": dict(level="exploration", parts=[e5_part("C14", dict(quick=250, thorough=2000))]),
     "C17": dict(level="exploration", parts=[e5_part("C17", dict(quick=1500, thorough=20000))]),
     "C18": dict(level="exploration", parts=e1_parts("C18", dict(quick=80000, thorough=800000))),
@@ -550,8 +558,8 @@ def replay(prop, path):
             if rc == 1:
                 print("VIOLATION property=%s replay=%s" % (prop, path))
             return rc
-        if engine == "e5":
-            exe = cargo_build("e5_probes")
+        if engine in ("e5", "e5-release"):
+            exe = cargo_build("e5_probes", release=(engine == "e5-release"))
             rc, out = run([exe, "replay", data.get("replay_property", prop), path], timeout=1200, extra_env={"VERIF_ENGINE_DIR": ENGINE})
             print(out, end="")
             if rc == 1:
@@ -562,7 +570,7 @@ def replay(prop, path):
             gen = cargo_build("e2_genstage")
             d = os.path.join(WORK, "gen", "miri-replay")
             os.makedirs(d, exist_ok=True)
-            run([gen, "gen", str(MIRI_DEFS), d], timeout=600, extra_env={"VERIF_SEED": str(extra.get("gen_seed", 1))})
+            run([gen, "gen", str(MIRI_DEFS), d], timeout=600, extra_env={"VERIF_SEED": str(extra.get("gen_seed", 1)), "VERIF_GEN_LIGHT": "1"})
             lst = os.path.join(WORK, "miri_replay_cases.json")
             json.dump([data["case"]], open(lst, "w"))
             res = os.path.join(WORK, "miri_replay_result.json")
